@@ -109,6 +109,25 @@ def rule_futex_key(rep, rid_prefix, prog, pairs=FUTEX_PAIRS):
                     "the awaited state was reached" % (w, sorted(map(str, va)), s_, sorted(map(str, vb))), sample={"wait": w, "wake": s_, "opflags": sorted(map(str, va | vb))})
     if n < 4:
         rep.unknown(rid, "fewer than 4 futex wait/wake pairs found (%d)" % n)
+    # the blocking helper hands the kernel the caller's word address and the caller's compare value on EVERY attempt, the retry after EINTR included: the
+    # caller decided to sleep because it read that value; if the word has moved on since (the wake-up happened while a signal handler ran) the kernel must
+    # refuse to sleep (EAGAIN). Re-reading the word inside the helper makes the retry sleep on the already-final value: no further wake-up will come
+    fb = prog.fn("_futex_blocking_op", required=False)
+    if fb is None:
+        rep.unknown(rid, "anchor vanished: _futex_blocking_op not found")
+        return
+    rep.saw(fb)
+    sys_ = [c for c in fb.all_insts() if c.op == "call" and c.callee in ("_dispatch_futex", "syscall")]
+    if not sys_:
+        rep.unknown(rid, "anchor vanished: _futex_blocking_op makes no futex system call")
+    for c in sys_:
+        ops = c.ops if c.callee == "_dispatch_futex" else c.ops[1:]
+        ok = len(ops) >= 3 and list(ops[0][:2]) == ["a", 0] and list(ops[2][:2]) == ["a", 2]
+        rep.require(rid, ok, c.loc, fb.name, "futex-wait-value-not-callers",
+                    "_futex_blocking_op passes the kernel a word address / compare value that is not its caller's on every attempt (found %s, %s): a wait retried after "
+                    "EINTR with a re-read value sleeps on the value the word has NOW - if the awaited store and its wake-up happened while the signal handler ran, "
+                    "nobody will ever wake this thread and the dispatch_once / lock / group waiter never returns" % (ops[0] if ops else None, ops[2] if len(ops) > 2 else None),
+                    sample={"call": c.loc})
 
 
 def rule_cas_progress(rep, rid, prog, fields=None, floor_name=None):
@@ -161,4 +180,64 @@ def rule_cas_progress(rep, rid, prog, fields=None, floor_name=None):
                         "%s retries a failed compare-exchange on %s without refreshing the expected value (the non-'v' form / a dropped reload): once another thread "
                         "has changed the word the loop can never succeed - the thread spins forever and the wake-up / hand-off it was about to perform never "
                         "happens" % (cx.origin, "/".join(sorted(prog.fields(cx))) or "a shared word"), sample={"fn": cx.origin, "at": cx.loc})
+    return n
+
+
+def rule_cas_memoryless(rep, rid, prog, fields=None, exceptions=None):
+    """a compare-exchange retry loop carries nothing but the freshly observed word from a failed attempt into the next one: every OTHER value merged at
+    the loop head (flags, counts, decisions computed from the state read by the failed attempt) must be recomputed from scratch by the attempt that finally
+    succeeds. A loop-head phi whose value coming round the back edge depends on its own previous value remembers a decision taken for a state that was never
+    committed. Returns the number of retry loops inspected."""
+    exceptions = exceptions or {}
+    n = 0
+    for fn in prog.all_functions():
+        done = set()
+        for cx in fn.all_insts():
+            if cx.op != "cmpxchg" or (fields is not None and not (prog.fields(cx) & fields)):
+                continue
+            if not fn.inst_reaches(cx, cx):
+                continue
+            E = fn.inst(cx.ops[1])
+            if E is None or E.op != "phi" or not fn.inst_reaches(cx, E):
+                continue
+            n += 1
+            rep.saw(fn)
+            H = E.block
+            bad = []
+            for p in H.insts:
+                if p.op != "phi" or p is E or p.id in done:
+                    continue
+                done.add(p.id)
+                back = [v for v, frm in p.ops if fn.inst_reaches(cx, fn.blocks[frm].term) or fn.blocks[frm] is cx.block]
+                if any(v[0] == "u" for v, frm in p.ops):
+                    continue      # not initialised before the loop: a variable assigned and read within one attempt, not a memory
+                # does a back-edge value depend on p itself?
+                seen, work, selfdep = set(), list(back), False
+                while work:
+                    o = work.pop()
+                    if o[0] != "i":
+                        continue
+                    if o[1] == p.id:
+                        selfdep = True
+                        break
+                    i = fn.insts.get(o[1]) if isinstance(fn.insts, dict) else fn.inst(o)
+                    if i is None or i.id in seen:
+                        continue
+                    seen.add(i.id)
+                    if i.op == "phi":
+                        work += [v for v, frm in i.ops]
+                    elif i.op in ("select", "and", "or", "xor", "add", "sub", "zext", "trunc", "sext", "bitcast", "icmp", "shl", "lshr", "mul"):
+                        work += [o2 for o2 in i.ops if isinstance(o2, (list, tuple)) and o2 and o2[0] == "i"]
+                if selfdep:
+                    bad.append(p)
+            key = (cx.origin, "/".join(sorted(prog.fields(cx))))
+            if bad and any(cx.origin == e for e in exceptions):
+                rep.ok(rid, "cas-retry-carries-state:%s" % cx.origin, {"fn": cx.origin, "exception": exceptions[cx.origin]})
+                continue
+            rep.require(rid, not bad, cx.loc, cx.origin, "cas-retry-carries-state:%s" % cx.origin,
+                        "%s: the retry loop around the compare-exchange on %s carries a value (%s) from a failed attempt into the next one besides the re-read word: "
+                        "a flag / decision taken for a state that was never committed survives into the attempt that succeeds on a DIFFERENT state (e.g. 'still "
+                        "suspended, nothing to wake' remembered by the attempt that removes the last suspension: the queue is never re-driven)"
+                        % (cx.origin, "/".join(sorted(prog.fields(cx))) or "a shared word", ", ".join("%%%d at %s" % (b.id, b.loc) for b in bad)),
+                        sample={"fn": cx.origin, "at": cx.loc})
     return n
